@@ -156,6 +156,22 @@ def run(ctx: Ctx) -> None:
             exhaustive(ctx, 7, KINDS_Q, [MatchingMode.CENTERDISTANCE])
             exhaustive(ctx, 5, KINDS_Q, [MatchingMode.PLANEDISTANCE, MatchingMode.IOU2D, MatchingMode.IOU3D])
         random_rankings(ctx, 300 if ctx.quick else 20000)
+        # thresholds of exactly zero are values, not "unset": IoU > 0 beats an IoU threshold of 0 ("any overlap counts"),
+        # nothing beats a distance threshold of 0. Judged by the Ap tap against the reference model.
+        for idx in ctx.indices("zero_thresholds", 24 if ctx.quick else 600):
+            r = ctx.rng("zero_thresholds", idx)
+            L = r.randint(1, 8)
+            seq = r.choices(["T", "H", "Q", "F", "U"], weights=[4, 2, 2, 2, 1], k=L)
+            results = [make_result(k, round(0.97 - 0.05 * p - r.uniform(0, 0.02), 6), p) for p, k in enumerate(seq)]
+            mode = list(MatchingMode)[idx % len(list(MatchingMode))]
+            n_gt = sum(1 for k in seq if k in "THQF") + r.randint(0, 1)
+            ctx.begin_case("zero_thresholds", idx, seq="".join(seq), mode=str(mode), n_gt=n_gt)
+            with ctx.case_guard("zero_thresholds"):
+                ctx.count("C04.zero_threshold_rankings")
+                Ap(TPMetricsAp(), list(results), n_gt, [CAR], mode, [0.0])
+                Ap(TPMetricsAph(), list(results), n_gt, [CAR], mode, [0.0])
+                Ap(TPMetricsAp(), list(results), n_gt, [CAR], mode, [0])
+                ctx.case(("zero_threshold", str(mode), min(L, 3)), nontrivial=True)
         def recompute(run, scene):
             labels = list(run.manager.target_labels)
             for k, fr in enumerate(run.results):
